@@ -898,7 +898,7 @@ fn busy_case(c: &BusyCase) -> BusyOutcome {
         let show = |t: &str, a: &Ans| -> String { match a { Ans::Status(s) => if c.close && t.starts_with('B') { "ans".into() } else { s.to_string() }, Ans::Panic => "panic".into(), Ans::NoResponse => "none".into() } };
         let row = |v: &Vec<Ans>| if v.is_empty() { "-".to_string() } else { join(c.reqs.iter().zip(v.iter()).map(|(t, a)| show(t, a)), ",") };
         let imp = format!("busy during={} again={} after={}", row(&raw.during), row(&raw.again), row(&raw.after));
-        let at = panics.first().map(|p| p.replace(' ', "_")).unwrap_or("-".into());
+        let at = panics.first().map(|p| { let p = p.replace(' ', "_"); match p.find("/src/") { Some(i) => p[i + 1..].to_string(), None => p } }).unwrap_or("-".into());
         let find = |v: &Vec<Ans>, a: Ans| v.iter().position(|x| *x == a).map(|i| c.reqs[i].clone());
         let mut fails: Vec<String> = vec![];
         for (phase, v) in [("while-parked", &raw.during), ("right-after-release", &raw.again)] {
